@@ -131,7 +131,9 @@ class WorkflowBuilder(WorkflowBase):
             New task
         """
         mapping = {task: new_task}
-        nx.relabel_nodes(self._g, mapping, copy=False)
+        # NOTE: An in-place relabel would move the replaced task to the end of the node order,
+        # which is the order in which the results of predecessors are passed on
+        self._g = nx.relabel_nodes(self._g, mapping, copy=True)
 
     def insert_workflow(
         self, other: Workflow, predecessors: Optional[Union[Task, list[Task]]] = None
